@@ -1082,6 +1082,19 @@ func (r *pfRun) transfer(b *ssa.BasicBlock, st *pfState, check bool) []*pfState 
 					}
 				}
 			}
+			// slicing a pointer to an array (what `make([]T, N)` with a constant N compiles to): the result has
+			// exactly high-low elements, high defaulting to the array length
+			if pt, isPtr := x.X.Type().Underlying().(*types.Pointer); isPtr && okLo {
+				if at, isArr := pt.Elem().Underlying().(*types.Array); isArr {
+					hi, okHi := at.Len(), true
+					if x.High != nil {
+						hi, okHi = an.IntConst(x.High)
+					}
+					if okHi && hi-lo > 0 {
+						st.addLen(r.key(x), lin{"", hi - lo, true})
+					}
+				}
+			}
 		case *ssa.MakeSlice:
 			// len(make([]T, n)) == n
 			if l := r.evalInt(x.Len, st); l.base != "" || l.off > 0 {
